@@ -112,7 +112,7 @@ def run(ctx: Ctx, which=None) -> None:
     a = gen_sweep.sweep(ctx, which) if PID == "C01" and ctx.pid == "C01" else None
     b = evo.closure_explore(ctx, names, which, depth=2, frontier_cap=10 if ctx.quick else 24, run_cap=120 if ctx.quick else 400)
     ctx.log(f"closure: {b}")
-    c = evo.loop_explore(ctx, names, which, bound=1 if ctx.quick else 2, cap=3000 if ctx.quick else 40000)
+    c = evo.loop_explore(ctx, names, which, bound=1 if ctx.quick else 2, cap=3000 if ctx.quick else 12000)
     ctx.log(f"loop: { {k: v for k, v in c.items() if k != 'choice_points_default'} }")
     d = part_d(ctx) if ctx.pid == "C01" else {"histories": 0, "runs": 0, "trees": 0}
     ctx.log(f"after parse requests: {d}")
